@@ -429,6 +429,9 @@ type StreamScenario struct {
 	SetPosBefore map[int]Pos
 	// MapperTables overrides what the table mapper knows (default: every table announced in the log)
 	MapperTables map[string]*Table
+	// MapperAfter[k]: what the table mapper knows from the moment the handler has been given the k-th transaction of the
+	// scenario (0-based): the application has learned of a schema change
+	MapperAfter map[int]map[string]*Table
 	// RejectAfterP1 > 0: the history re-announces a table with a column count the mapper's table does not have; the
 	// stream must end with an error after exactly this many transactions
 	RejectAfterP1 int // (value + 1; 0 = none)
@@ -774,6 +777,11 @@ func (rs *runState) runAttempt(att int, a AttemptPlan, dsnOverride string) {
 		rec.Emit(pj)
 		rs.kept = append(rs.kept, t)
 		rs.snap = append(rs.snap, projTx(t))
+		if mt, ok := sc.MapperAfter[len(rs.kept)-1]; ok {
+			rs.mapper.mu.Lock()
+			rs.mapper.tables = mt
+			rs.mapper.mu.Unlock()
+		}
 		if a.Scribble {
 			scribbleTx(t, byte(pat))
 		}
